@@ -20,8 +20,53 @@ ASSUMPTIONS = ["stand-in modules model binding presence; absence is modelled by 
 CONFIGS = [("none", False, False), ("sgio", True, False), ("iscsi", False, True), ("both", True, True)]
 
 
+VERSIONS = ["1.1.2", "1.1.10", "1.2.0", "10.0.1", "1.1.19", "2.0"]  # what a binding's package metadata may say
+
+
 def shards(tier, seed):
-    return [{"id": n, "sgio": s, "iscsi": i, "n": 30 if tier == "quick" else 600} for n, s, i in CONFIGS]
+    out = [{"id": n, "sgio": s, "iscsi": i, "n": 30 if tier == "quick" else 600, "version": VERSIONS[(seed + k) % len(VERSIONS)]} for k, (n, s, i) in enumerate(CONFIGS)]
+    # the library as it is installed: built from the tree (setup.py build, what a wheel would contain), not the source directory
+    out += [{"id": "built-" + n, "sgio": s, "iscsi": i, "n": 10 if tier == "quick" else 100, "version": VERSIONS[(seed + 3 + k) % len(VERSIONS)], "built": True}
+            for k, (n, s, i) in enumerate(CONFIGS) if n in ("none", "both")]
+    return out
+
+
+def use_built_copy(ctx):
+    """build the tree under test into a scratch directory and put *that* first on the import path"""
+    import shutil
+    import subprocess
+
+    from vmon import repo
+    from vmon.sim import devnode
+
+    src = os.path.join(devnode.base(), "src")
+    out = os.path.join(devnode.base(), "built")
+    shutil.copytree(repo.REPO, src, ignore=shutil.ignore_patterns(".git", "build", "*.egg-info", "__pycache__"))
+    env = dict(os.environ, SETUPTOOLS_SCM_PRETEND_VERSION="0.0.0")  # the copy carries no git metadata for setuptools_scm
+    env.pop("PYTHONWARNINGS", None)
+    p = subprocess.run([sys.executable, "setup.py", "-q", "build", "--build-lib", out], cwd=src, env=env, stdout=subprocess.PIPE, stderr=subprocess.STDOUT, timeout=300)
+    if p.returncode != 0 or not os.path.isdir(os.path.join(out, "pyscsi")):
+        ctx.inconclusive_because("the tree could not be built: %s" % p.stdout.decode(errors="replace")[-300:])
+        return False
+    sys.path[:] = [out] + [x for x in sys.path if os.path.realpath(x) != repo.REPO]
+    ctx.count("built_copies")
+    return True
+
+
+def binding_metadata(shard):
+    """dist-info directories as an installed cython-sgio / cython-iscsi leaves them, with this shard's version string"""
+    from vmon.sim import devnode
+
+    site = os.path.join(devnode.base(), "site")
+    for present, dist in ((shard["sgio"], "cython_sgio"), (shard["iscsi"], "cython_iscsi")):
+        if present:
+            d = os.path.join(site, "%s-%s.dist-info" % (dist, shard["version"]))
+            os.makedirs(d, exist_ok=True)
+            with open(os.path.join(d, "METADATA"), "w") as f:
+                f.write("Metadata-Version: 2.1\nName: %s\nVersion: %s\n" % (dist.replace("_", "-"), shard["version"]))
+            open(os.path.join(d, "RECORD"), "w").close()
+            open(os.path.join(d, "INSTALLER"), "w").write("pip\n")
+    sys.path.append(site)
 
 
 class Blocker:
@@ -45,6 +90,10 @@ def run(shard, ctx):
         ctx.inconclusive_because("pyscsi device modules were imported before the configuration was set up")
         return
     cfg = shard["id"]
+    if shard.get("built") and not use_built_copy(ctx):
+        return
+    binding_metadata(shard)
+    ctx.add("binding_versions", shard["version"])
     blocked = []
     if shard["sgio"]:
         sys.modules["sgio"] = fake_sgio.make_module()
@@ -73,6 +122,10 @@ def run(shard, ctx):
     except Exception as e:  # noqa: BLE001
         ctx.case((cfg, "import", "pyscsi"), True)
         ctx.fail("C19:%s.import_fails.pyscsi" % cfg, "import pyscsi raised %s: %s" % (type(e).__name__, e), {"configuration": cfg, "module": "pyscsi"}, exc=e)
+        return
+    where = os.path.realpath(pyscsi.__file__)
+    if bool(shard.get("built")) != (os.sep + "built" + os.sep in where):
+        ctx.inconclusive_because("pyscsi was imported from %s in configuration %s" % (where, cfg))
         return
 
     mods = []
@@ -289,7 +342,7 @@ def run(shard, ctx):
 
 def finalize(merged, tier):
     c = merged["counters"]
-    if merged["shards"] not in (4, 8):  # 4 configurations, each also in an interpreter started with -O
+    if merged["shards"] not in (6, 12):  # 4 configurations from the source tree + 2 from a built copy, each also in the -O -W error interpreter
         merged["inconclusive"].append("not all 4 configurations ran")
     for k in ("modules_imported", "commands_built", "device_string_cases", "facade_plain_ok"):
         if c.get(k, 0) == 0:
